@@ -11,7 +11,7 @@
 (*   t \in RunStart | RunEnd | NodeStart | NodeEnd | NodeError | CacheHit  *)
 (*        | RouteDecision | Shutdown                                       *)
 (* Trace record: [id, status (what the caller observed), events,           *)
-(*                graphnodes (names of nodes that wrap nested graphs)]     *)
+(*                graphnodes (<<node name, wrapped graph name>> pairs)]    *)
 (***************************************************************************)
 EXTENDS HGBase, Json, IOUtils, TLC, TLCExt
 
@@ -38,7 +38,9 @@ RunStart ==
   /\ IsEvent("RunStart") /\ Fresh(Ev.span)
   /\ IF Ev.parent = None THEN l = 1 /\ rootSpan' = Ev.span
      ELSE /\ Ev.parent \in open /\ UNCHANGED rootSpan
-          /\ \/ kindOf[Ev.parent] = "node" /\ nodeOf[Ev.parent] \in Names(Traces[tid].graphnodes)
+          /\ \/ /\ kindOf[Ev.parent] = "node"
+                /\ \E i \in 1..Len(Traces[tid].graphnodes) :      \* the node that launched it wraps this very graph
+                      Traces[tid].graphnodes[i][1] = nodeOf[Ev.parent] /\ Traces[tid].graphnodes[i][2] = Ev.graph
              \/ kindOf[Ev.parent] = "maprun" /\ ~Ev.ismap
   /\ open' = open \cup {Ev.span}
   /\ kindOf' = Put(kindOf, Ev.span, IF Ev.ismap THEN "maprun" ELSE "run")
